@@ -21,7 +21,7 @@ a failure).  A write that FAILS is different: then the new file is not complete
 and the target must keep the old content (`atomic_at_every_prefix` covers this:
 the fault set is arbitrary).
 -/
-import LA.Lemmas.SafeWriteFinish
+import LA.Lemmas.SafeWriteSingle
 namespace LA.C19
 open LA.SafeWrite
 
@@ -103,6 +103,66 @@ theorem no_temp_after_close : NoTempAfterClose {} := by
     · simp [FS.view, FS.lookup, h]
   exact ⟨aux _ h1, aux _ h2⟩
 
+/-- In the whole session the cleaning unlink is only issued after some other call was made to fail. -/
+theorem session_unlink_after_fault (F : Nat → Bool) (cfg : Cfg) (old : Bytes) (calls : List Call)
+    (explicitFinish : Bool) (hsafe : cfg.safe = true) (hleg : cfg.legacy = {})
+    (hwf : wellFormed cfg.size 0 calls) :
+    UAF F (session F cfg old calls explicitFinish).sc.w ∧ UAF F (session F cfg old calls explicitFinish).s.w := by
+  obtain ⟨hpl, hh⟩ := header_spec F cfg old (expected cfg.size calls) hsafe hleg
+  have hu0 := header_UAF F cfg old hsafe
+  have hsettled := session_settled F cfg old calls explicitFinish hsafe hleg hwf
+  -- same structure as `session_settled`: the first finish_entry, then idle ones
+  have key : UAF F (finishEntry F cfg (if (header F cfg { fs := initFS old }).2 = .ok
+        then runCalls F cfg (header F cfg { fs := initFS old }).1 calls
+        else ((header F cfg { fs := initFS old }).1, [])).1).1.w ∧
+      Fin old (expected cfg.size calls) (finishEntry F cfg (if (header F cfg { fs := initFS old }).2 = .ok
+        then runCalls F cfg (header F cfg { fs := initFS old }).1 calls
+        else ((header F cfg { fs := initFS old }).1, [])).1).1 := by
+    rcases hh with ⟨h1, hs, hinc, ho, hf⟩ | ⟨h1, hfin⟩
+    · simp only [h1, ↓reduceIte]
+      have hi0 : IncInj F (header F cfg { fs := initFS old }).1 := fun h => by rw [hinc] at h; simp at h
+      obtain ⟨⟨c, hsc⟩, hic⟩ := runCalls_shape_inc (F := F) (cfg := cfg) calls _ ⟨[], hs⟩ hi0
+      have hu1 := (runCalls_frameD F cfg (header F cfg { fs := initFS old }).1 calls).presUAF
+        dataOp_not_unlink hu0
+      refine ⟨finishEntry_data_UAF hleg hsc hu1 hic, ?_⟩
+      have hdi0 : DI cfg old ([], 0) (header F cfg { fs := initFS old }).1 :=
+        ⟨[], hs, fun _ => ⟨by rw [hf]; rfl, ho, rfl, rfl, Nat.zero_le _⟩⟩
+      obtain ⟨c2, hsc2, hcc⟩ := runCalls_DI (F := F) calls ([], 0) _ hdi0 hwf
+      have hpl2 := (runCalls_frame F cfg (header F cfg { fs := initFS old }).1 calls).presPL hpl
+      refine finishEntry_data hleg hsc2 hpl2 ?_
+      intro hi
+      have C := hcc hi
+      refine ⟨C.len, Nat.le_trans C.le C.bound, ?_⟩
+      unfold expected
+      rw [← C.pad, padTo_padTo C.bound]
+    · simp only [h1, ↓reduceIte]
+      exact ⟨finishEntry_fin_UAF hfin hu0, finishEntry_fin hfin⟩
+  unfold session closeCall
+  simp only []
+  cases explicitFinish with
+  | true =>
+    have k2 := finishEntry_fin_UAF (F := F) (cfg := cfg) key.2 key.1
+    exact ⟨k2, finishEntry_fin_UAF (finishEntry_fin key.2) k2⟩
+  | false => exact ⟨key.1, finishEntry_fin_UAF key.2 key.1⟩
+
+/-- **C19, part 2 for single faults** (the property's own quantifier: "every one of those calls
+failing").  When at most one call fails, whichever it is, no temporary file is left after
+close nor after free — without any side condition. -/
+theorem no_temp_single_fault (F : Nat → Bool) (hF : ∀ i j, F i = true → F j = true → i = j)
+    (cfg : Cfg) (old : Bytes) (calls : List Call) (explicitFinish : Bool)
+    (hsafe : cfg.safe = true) (hleg : cfg.legacy = {}) (hwf : wellFormed cfg.size 0 calls) :
+    (session F cfg old calls explicitFinish).sc.w.fs.view .tmp = none ∧
+    (session F cfg old calls explicitFinish).s.w.fs.view .tmp = none := by
+  obtain ⟨u1, u2⟩ := session_unlink_after_fault F cfg old calls explicitFinish hsafe hleg hwf
+  obtain ⟨n1, n2⟩ := no_temp_after_close F cfg old calls explicitFinish hsafe hleg hwf
+  have aux : ∀ w : World, UAF F w → UnlinkNotFaulted w := by
+    intro w hu ev hm hop hres
+    obtain ⟨l1, l2, hl⟩ := List.append_of_mem hm
+    obtain ⟨k, hk, hfk, hfl⟩ := hu l1 ev l2 hl hop hres
+    have := hF k l1.length hfk hfl
+    omega
+  exact ⟨n1 (aux _ u1), n2 (aux _ u2)⟩
+
 /-! ### non-vacuity: the hypotheses are satisfiable, and both outcomes occur -/
 
 /-- Unfolding of the write loop for a non-sparse write that needs no seek (used only to
@@ -129,6 +189,10 @@ macro "safe_eval" : tactic => `(tactic|
     wellFormed, UnlinkNotFaulted])
 
 example : wellFormed 10 0 [.data [1, 2, 3], .block 5 [4, 5], .data [6, 7, 8, 9]] := by simp [wellFormed]
+
+/-- A single-element fault set satisfies the hypothesis of `no_temp_single_fault`. -/
+example : ∀ i j, (fun k => k == 5) i = true → (fun k => k == 5) j = true → i = j := by
+  intro i j hi hj; simp at hi hj; omega
 
 /-- Without faults the new content is installed (the `new` disjunct of atomicity is reached)… -/
 example : (session (fun _ => false) { size := 3 } [7] [.data [1, 2, 3]] true).s.w.fs.view .target
